@@ -136,6 +136,17 @@ ScaledUnpaired(d) ==
      \A li \in LevQuick : \A ki \in 1..3 :
         Emit(TwoCase("unpaired", ty, "ci", ki, li, da, db, TRUE, "base") @@ [fam |-> 2])
 
+\* strongly unbalanced unpaired samples: a few noisy observations against a very long constant sample.  The
+\* effective degrees of freedom are exactly na - 1 (a row of the table) however large na + nb is.
+UnbalancedUnpaired(d) ==
+  \A i \in 1..3 : \A ty \in {"f64", "f32"} : \A nb \in {1000, 99990, 100000, 250000} :
+     LET na == 4 + 2 * i
+         da == RandSample(7300 + i, na, 0, 0)
+         db == [rle |-> << <<V(5 * i, 0), nb>> >>, order |-> "asc"] IN
+     \A li \in LevQuick : \A ki \in 1..3 :
+        /\ Emit(TwoCase("unpaired", ty, "ci", ki, li, da, db, TRUE, "base") @@ [fam |-> 0])
+        /\ Emit(TwoCase("unpaired", ty, "ci", FlipK[ki], li, db, da, FALSE, "exchange") @@ [fam |-> 0])
+
 \* designed sample pairs with NON-INTEGER effective degrees of freedom (spec/tables/tqx.ndjson):
 \* consecutive pairs share the integer part of the dof, and the cases of one confidence are emitted
 \* back to back (the harness runs this part on one thread): a stale or truncated dof shows
@@ -190,8 +201,8 @@ C09FoldPart(d) ==
 
 Next == /\ ~done
         /\ done' = TRUE
-        /\ CASE Part = "c01" -> C01Part(done) [] Part = "c06" -> C06Part(done)
-             [] Part = "c04" -> (C04Part(done) /\ ScaledUnpaired(done)) [] Part = "c05" -> C05Part(done)
+        /\ CASE Part = "c01" -> C01Part(done) [] Part = "c06" -> (C06Part(done) /\ UnbalancedUnpaired(done))
+             [] Part = "c04" -> (C04Part(done) /\ ScaledUnpaired(done) /\ UnbalancedUnpaired(done)) [] Part = "c05" -> C05Part(done)
              [] Part = "designed" -> DesignedPart(done) [] Part = "c09fold" -> C09FoldPart(done)
 Spec == Init /\ [][Next]_done
 =============================================================================
